@@ -785,6 +785,7 @@ var c05Known = []struct{ id, what, idl string }{
 	{"member-case", "struct members that differ by case only", "package gen\nstruct S\n\ta: int32\n\tA: int32\nend\ninterface A\n\tfn f(o: S)\nend\n"},
 	{"unknown-param", "a parameter of type unknown", "package gen\ninterface A\n\tfn f(o: unknown)\nend\n"},
 	{"nothing-param", "a parameter of type nothing", "package gen\ninterface A\n\tfn f(o: nothing)\nend\n"},
+	{"struct-recursive", "a struct that contains itself", "package gen\nstruct N\n\tnext: N\n\tv: int32\nend\ninterface A\n\tfn f(x: N)\nend\n"},
 	{"property-empty", "a property without parameter", "package gen\ninterface A\n\tprop s()\nend\n"},
 }
 
